@@ -222,7 +222,7 @@ func engineAnswerChecks(c *caseCtx) {
 			for _, m := range legalMoves(pos, turn) {
 				legal[uciMove(m)] = true
 			}
-			for _, name := range []string{"morlock", "turochamp", "bernstein", "sargon"} {
+			for _, name := range []string{"morlock", "turochamp", "bernstein", "sargon", "bernstein-nolimit"} {
 				e, opts := bundledEngine(ctx, name, uint(c.r.Intn(2)), 0, uint(1+c.r.Intn(2)), false, 1)
 				in := make(chan string, 4)
 				_, out := uci.NewDriver(ctx, e, in, opts...)
